@@ -41,6 +41,17 @@ def gen_file(rng, big=None):
         s.dims.append([fresh(), 0])
     for _ in range(rng.randint(0, 4)):
         s.dims.append([fresh(), rng.randint(1, 5)])
+    dense = big is None and rng.random() < 0.12
+    if dense:
+        # the densest legal header: many dimensions with 1-4 character names (the smallest list elements the format
+        # allows: 12 bytes in CDF-1/2, 20 in CDF-5) and next to nothing after them
+        for _ in range(rng.randint(6, 80)):
+            for _try in range(20):
+                n = "".join(rng.choice("abcdefghijklmnopqrstuvwxyzABCDEFXYZ_") for _ in range(rng.randint(1, 4))).encode()
+                if n not in names:
+                    names.add(n)
+                    s.dims.append([n, rng.randint(1, 3)])
+                    break
     rng.shuffle(s.dims)
     ud = s.unlimdim()
     fixed = [i for i, d in enumerate(s.dims) if d[1] != 0]
@@ -55,8 +66,10 @@ def gen_file(rng, big=None):
             xt = rng.choice(tps)
             out.append(cs.Att(n, xt, rand_values(rng, xt, rng.choice([0, 0, 1, 2, 5, 33]))))
         return out
-    s.gatts = atts(4)
+    s.gatts = atts(4) if not dense else atts(rng.choice([0, 0, 1]))
     nv = rng.randint(0, 6) if s.dims else rng.randint(0, 2)
+    if dense:
+        nv = rng.choice([0, 0, 1])
     for _ in range(nv):
         nd = rng.randint(0, min(3, len(s.dims)))
         ds = []
